@@ -34,7 +34,9 @@ inductive MClass
       only when accept_config … is enabled" -/
   | config
   /-- "… command execution only from the receiver's own zone or a zone above it and only when
-      accept_commands is enabled" -/
+      accept_commands is enabled"; a command that names another node as its target is not executed by the
+      receiver but relayed towards that node ("a message that is refused … is not relayed further"): the
+      same zone condition, `accept_commands` concerns the executing node only -/
   | command
   /-- the node's own certificate and CA file: from the receiver's own zone or a zone above it -/
   | certUpdate
@@ -74,7 +76,7 @@ def EntitledZone (f : Forest) (cls : MClass) (s : Zone) (c : Ctx) : Prop :=
   | .execResult => ∃ ez, c.execEndpointZone = some ez ∧ Below f ez s
   | .zoneInternal => s = c.localZone
   | .config => Below f c.localZone s ∧ c.acceptConfig = true
-  | .command => Below f c.localZone s ∧ c.acceptCommands = true
+  | .command => Below f c.localZone s ∧ (c.forwardZone.isSome = true ∨ c.acceptCommands = true)
   | .certUpdate => Below f c.localZone s
   | .session => True
   | .certRequest => True
@@ -110,7 +112,7 @@ def entitledZoneB (f : Forest) (cls : MClass) (s : Zone) (c : Ctx) : Bool :=
     | some ez => belowB f specDepth ez s
   | .zoneInternal => s == c.localZone
   | .config => belowB f specDepth c.localZone s && c.acceptConfig
-  | .command => belowB f specDepth c.localZone s && c.acceptCommands
+  | .command => belowB f specDepth c.localZone s && (c.forwardZone.isSome || c.acceptCommands)
   | .certUpdate => belowB f specDepth c.localZone s
   | .session => true
   | .certRequest => true
